@@ -361,7 +361,15 @@ def run_case(ctx, rng, mode: str):
                  sample={"class": cls, "position_kind": pk, "refdec_says": str(v), "bytes_hex": data.hex()[:160]})
 
 
+def child_case(ctx, rng, k):
+    run_case(ctx, rng, "generic" if rng.random() < .5 else "rdf11")
+
+
 def run_shard(ctx):
+    if ctx.shard == 0:
+        # the same enumeration in an interpreter started with -O: rejecting a stream must not hinge on an assert
+        from .. import childopt
+        childopt.run(ctx, ID, 12 if ctx.tier == "quick" else 60)
     i = 0
     while not ctx.out_of_time():
         rng = ctx.rng(i)
